@@ -18,6 +18,14 @@ public:
   void AddUID(const EntityUID& newUID);
   void FreeUID(const EntityUID& returnUID) noexcept;
   [[nodiscard]] bool IsTaken(const EntityUID& uid) const;
+
+#ifdef CCL_VERIF
+  // Verification hook: deterministic identifiers so that recorded histories replay identically
+  inline static bool verifSeeded{ false };
+  inline static std::mt19937_64 verifEngine{};
+  static void VerifSeed(uint64_t seed) { verifEngine.seed(seed); verifSeeded = true; }
+  static void VerifUnseed() noexcept { verifSeeded = false; }
+#endif
 };
 
 } // namespace ccl::tools
